@@ -10,6 +10,9 @@
 (* Call sites (in source order) of the modelled package:                   *)
 (*   eqA   deriveEqualA(a, b *T1)            T1 has a field F of type fty  *)
 (*   eqB   deriveEqualB(x, y V)              V is declared as vty          *)
+(*   keys  deriveKeys(m)                     the inner function of nest on *)
+(*                                           its own: an old file can      *)
+(*                                           define it without the outer   *)
 (*   nest  deriveSort(deriveKeys(m))         m is declared as mty: the     *)
 (*                                           inner call's result type      *)
 (*                                           flows into the outer call     *)
@@ -26,7 +29,7 @@
 (***************************************************************************)
 EXTENDS Naturals, Sequences, FiniteSets, TLC, Json, CSV, IOUtils
 
-Sites == <<"eqA", "eqB", "nest", "cmp">>          \* source order
+Sites == <<"eqA", "eqB", "keys", "nest", "cmp">>  \* source order
 SiteSet == {Sites[i] : i \in DOMAIN Sites}
 
 Versions == [present : SUBSET SiteSet, fty : {"int", "strs"}, vty : {"ints", "strs"}, mty : {"mapSI", "mapII"}]
@@ -35,6 +38,7 @@ Versions == [present : SUBSET SiteSet, fty : {"int", "strs"}, vty : {"ints", "st
 Key(v, s) ==
   CASE s = "eqA"  -> <<"eqA", v.fty>>
     [] s = "eqB"  -> <<"eqB", v.vty>>
+    [] s = "keys" -> <<"keys", v.mty>>
     [] s = "nest" -> <<"nest", v.mty>>
     [] s = "cmp"  -> <<"cmp", v.fty>>
 
@@ -42,9 +46,9 @@ InOrder(v) == SelectSeq(Sites, LAMBDA s : s \in v.present)
 
 \* pkg.Generate emits plugin by plugin (sorted plugin order), and within a plugin in
 \* registration order: compare before equal before keys/sort
-PluginRank(s) == CASE s = "cmp" -> 1 [] s \in {"eqA", "eqB"} -> 2 [] s = "nest" -> 3
+PluginRank(s) == CASE s = "cmp" -> 1 [] s \in {"eqA", "eqB"} -> 2 [] s = "keys" -> 3 [] s = "nest" -> 4
 ByPlugin(order) == SelectSeq(order, LAMBDA s : PluginRank(s) = 1) \o SelectSeq(order, LAMBDA s : PluginRank(s) = 2)
-                   \o SelectSeq(order, LAMBDA s : PluginRank(s) = 3)
+                   \o SelectSeq(order, LAMBDA s : PluginRank(s) = 3) \o SelectSeq(order, LAMBDA s : PluginRank(s) = 4)
 
 \* output of a run from scratch: per plugin, functions in source order of their call sites
 Scratch(v) == [i \in DOMAIN InOrder(v) |-> Key(v, ByPlugin(InOrder(v))[i])]
@@ -78,7 +82,7 @@ ImplOrder(v, d) ==
        \o SelectSeq(Sites, LAMBDA s : s \in v.present /\ s \in Declared(d))
 
 \* the outer call of "nest" is typed from the signature the OLD file declares for the inner one
-StaleNest(v, d) == /\ "nest" \in v.present /\ d.kind = "output" /\ "nest" \in d.of.present
+StaleNest(v, d) == /\ "nest" \in v.present /\ d.kind = "output" /\ d.of.present \cap {"nest", "keys"} # {}
                    /\ d.of.mty # v.mty
 
 \* a truncated remnant that still is a Go file but declares nothing, or does not parse
